@@ -101,6 +101,18 @@ impl Resolver<'_> {
             // found is none: infer from expected
 
             if found.lineage.is_none() && expected.unwrap().is_relation() {
+                // a call of an std operator (`math.abs 3`, `sum x`) is a scalar, also when its
+                // declaration does not spell a return type; the std functions that do return a
+                // relation (`read_csv`, ...) declare it
+                if let ExprKind::RqOperator { name, .. } = &found.kind {
+                    return Err(Error::new(Reason::Expected {
+                        who: who(),
+                        expected: "a table".to_string(),
+                        found: format!("a call of `{name}`"),
+                    })
+                    .with_span(found.span));
+                }
+
                 // special case: infer a table type
                 // inferred tables are needed for s-strings that represent tables
                 // similarly as normal table references, we want to be able to infer columns
